@@ -1,7 +1,7 @@
 (* Props/C19.v — Concurrent recoveries share work and never deadlock.
    Only statements here; every proof is [exact <lemma of RecSync/Proofs.v>]. *)
 From Coq Require Import List NArith Relations.
-From SF Require Import Base.Str Retry.Model RecSync.Model RecSync.Proofs.
+From SF Require Import Base.Str Retry.Model RecSync.Model RecSync.Proofs Port.Model Port.Proofs Port.Boundary RecSync.Delivery.
 Import ListNotations.
 Local Open Scope string_scope. Local Open Scope list_scope.
 
@@ -30,9 +30,31 @@ Theorem C19_max_rank_progress : forall t (ts : list thread),
   increasing (need t) -> (forall u, In u ts -> rank u <= rank t) -> forall u, In u ts -> ~ waits_for t u.
 Proof. exact max_rank_not_blocked. Qed.
 
-(* C19_delivery (attached recoveries receive the regenerated token through the boundary ports) is NOT proved:
-   it lives in InterWorkflowPort (property C03's model) and the executors; the check exercises it on the real
-   engine (every recovery of a held scenario must complete with the right output). *)
+(* DELIVERY, partial.  Port 0 = the port of the running recovery workflow on which the producer's regenerated token
+   (tag g) appears; port k = the port of a recovery that attached with add_inter_port(k, boundary_tags=[g], PROPAGATE)
+   (what _synchronize_workflows does for a recovering producer).  For EVERY operation history of the InterWorkflowPort
+   (other puts, gets, other attachments before, between and after -- Port/Model.v, composed through C03_boundary):
+   an attachment made BEFORE the token is put receives it, and an attachment made AFTER the token entered the port's
+   history receives it at once (replay).  Hence every waiting recovery receives the regenerated token, whenever it
+   attached.  Partial: this is the port level; that the engine's attached workflow consumes the token and terminates, that
+   the tags agree (job_token.tag vs the token's tag) and that the producer does put the token (it does not after a stale
+   second rollback: known finding free/not-completed) are exercised by the engine runs, not proved. *)
+Theorem C19_delivery_partial_early : forall n k g te t pre mid post s es p,
+  run (init KInter n) (pre ++ AddInter k [g] true te :: mid ++ Put 0 t :: post) = (s, es) ->
+  0 < n -> nth_error (ports s) k = Some p -> is_term t = false -> tag_of t = g ->
+  In t (tl p).
+Proof. exact attached_early_receives. Qed.
+Theorem C19_delivery_partial_late : forall n k g te t pre post s0 es0 p0 s es p,
+  run (init KInter n) pre = (s0, es0) -> nth_error (ports s0) 0 = Some p0 -> In t (tl p0) ->
+  run (init KInter n) (pre ++ AddInter k [g] true te :: post) = (s, es) ->
+  0 < n -> nth_error (ports s) k = Some p -> is_term t = false -> tag_of t = g ->
+  In t (tl p).
+Proof. exact attached_late_receives. Qed.
+Example C19_delivery_example :
+  let ops := [AddInter 1 ["0"] true false; Put 0 (Tok 7 "0"); AddInter 2 ["0"] true false; Get 2 "c"] in
+  let '(s, es) := run (init KInter 3) ops in
+  map tl (ports s) = [[Tok 7 "0"]; [Tok 7 "0"]; [Tok 7 "0"]] /\ recv 2 "c" (concat es) = [Tok 7 "0"].
+Proof. vm_compute. split; reflexivity. Qed.
 
 (* non-vacuity *)
 Example C19_sharing_example :
@@ -62,3 +84,5 @@ Print Assumptions C19_attach_while_recovering.
 Print Assumptions C19_wait_increases_rank.
 Print Assumptions C19_no_deadlock.
 Print Assumptions C19_max_rank_progress.
+Print Assumptions C19_delivery_partial_early.
+Print Assumptions C19_delivery_partial_late.
